@@ -113,6 +113,9 @@ def gen_schmidt(repo, out):
           and s[3][1][1][0] == "mcall" and s[3][1][1][2] == "try_svd" and s[3][1][1][1][0] == "call")
     if not ok:
         _fail(path, it, "statement 5 is not `let svd = DMatrix::from_*_slice(..).try_svd(..).ok_or(..)?`")
+    svd_args = s[3][1][1][3]
+    if svd_args != [("bool", False), ("bool", False), ("path", ["f64", "EPSILON"]), ("num", "10000", None)]:
+        _fail(path, it, f"try_svd arguments are not (false, false, f64::EPSILON, 10_000): {svd_args!r}")
     ctor = s[3][1][1][1]
     if ctor[2] != [("path", ["dim"]), ("path", ["dim"]), ("unary", "&", ("path", ["jsa_mag"]))]:
         _fail(path, it, "matrix constructor arguments are not (dim, dim, &jsa_mag)")
@@ -139,7 +142,7 @@ def gen_schmidt(repo, out):
         _fail(path, it, "tail is not `Ok(…)`")
     result = r_expr(tail[2][0], {"norm_sq": "norm_sq", "kinv": "kinv"}, path, it)
     text = f"""(* GENERATED by tools/gen/schmidt.py from src/math/schmidt.rs (lines {it.span[0]}-{it.span[1]}) — do not edit; regenerated on every check run. *)
-From Coq Require Import Reals NArith List.
+From Coq Require Import Reals NArith List String.
 From SpdVerif Require Import Model.FinSum Model.Hom Model.Schmidt.
 Local Open Scope R_scope.
 
@@ -151,17 +154,20 @@ Definition src_mag (j : cx R) : R := {mag}.
 (* DMatrix::from_…_slice(dim, dim, &jsa_mag) *)
 Definition src_matrix (n : nat) (m : nat -> R) : nat -> nat -> R := {layout}.
 (* norm_squared, the fold, the final quotient *)
+Definition src_kinv (n : nat) (sv : nat -> R) : R := {init} + rsum n (fun k => {term}).
 Definition src_result (n : nat) (sv : nat -> R) : R :=
   let norm_sq := rsum n (fun k => sv k * sv k) in
-  let kinv := {init} + rsum n (fun k => {term}) in
+  let kinv := src_kinv n sv in
   {result}.
+(* try_svd(compute_u, compute_v, eps, max_niter) as written in the source *)
+Definition src_svd_args : bool * bool * string * N := (false, false, "f64::EPSILON"%string, 10000%N).
 
 Definition src_schmidt_number (svd : nat -> (nat -> nat -> R) -> option (nat -> R)) (len : nat) (a : nat -> cx R) : outcome :=
   if src_accepted (N.of_nat len) then
     let dim := N.to_nat (src_dim (N.of_nat len)) in
     match svd dim (src_matrix dim (fun k => src_mag (a k))) with
     | None => ErrSvd
-    | Some sv => OkK (src_result dim sv)
+    | Some sv => if Req_EM_T (src_kinv dim sv) 0 then OkNaN else OkK (src_result dim sv)   (* x / 0.0 with x = 0: NaN *)
     end
   else ErrNotSquare.
 """
